@@ -15,6 +15,8 @@ void vp_c02_reserve_attr(const QString *name);
 unsigned vp_c02_nattr(const QDomElement *el);
 void vp_dom_truncate(QDomElement *el, unsigned n);
 bool vp_c02_writer_has_root(void *w);
+void vp_c02_fixed_text(QString *out, unsigned len);
+void vp_c02_force_attr(QDomElement *el, const QString *name, const QString *value);
 void vp_c02_init();   // call first in every entry
 }
 #define C02_L 40   // longest name/namespace of the vocabularies (http://jabber.org/features/iq-register = 38)
